@@ -168,7 +168,7 @@ def classify(case):
 
 
 def plan(tier, seed):
-    specs = [sp for sp in c03.plan(tier, seed) if sp["kind"] != "steered-hbond"]
+    specs = [sp for sp in c03.base_plan(tier, seed) if sp["kind"] != "steered-hbond"]
     files = corpus.SMALL[:6]
     n, ex = (8, 150) if tier == "quick" else (16, 6000)
     specs += [{"kind": "steered", "files": files, "examples": ex, "seed": seed * 1000 + 400 + k} for k in range(n)]
